@@ -54,6 +54,6 @@ RowBad == CASE row.k = "make" -> MakeBad [] row.k = "apply" -> ApplyBad [] OTHER
 TStep == /\ TNext
          /\ LET nb == RowBad IN
               /\ bad' = bad \cup {<<l, c>> : c \in nb}
-              /\ (nb = {} \/ Cardinality(bad) > 40 \/ PrintT(<<"VERIF_BAD", l, nb>>))
+              /\ (nb = {} \/ Cardinality(bad) > 2000 \/ PrintT(<<"VERIF_BAD", l, nb>>))
 TSpec == TInit /\ [][TStep]_<<l, bad>>
 =============================================================================
